@@ -73,9 +73,18 @@ def plain_callable(draw, i):
     for k, (nm, t) in enumerate(zip(names, types)):
         if k == kw_only_from and kw_only_from < n:
             parts.append("*")
-        dflt = f" = {inhabitant_srcs(t, 1)[0]}" if k >= n - n_def else ""
+        dflt = ""
+        if k >= n - n_def:
+            # usually a member of the declared type; sometimes the `x: int = None` idiom or
+            # another value outside the type (the default itself is not what the call is judged on,
+            # but an explicitly passed equal value is)
+            if draw(st.integers(0, 2)) == 0:
+                dv = draw(st.sampled_from(["None", "0", '""', "()"]))
+            else:
+                dv = inhabitant_srcs(t, 1)[0]
+            dflt = f" = {dv}"
         parts.append(f"{nm}: {t}{dflt}")
-        params.append((nm, "ko" if k >= kw_only_from and kw_only_from < n else "pk", t, bool(dflt)))
+        params.append((nm, "ko" if k >= kw_only_from and kw_only_from < n else "pk", t, dflt[3:] if dflt else False))
     var_t = kwv_t = None
     if kw_only_from >= n and draw(st.integers(0, 3)) == 0:
         var_t = draw(st.sampled_from(["int", "str", "A"]))
@@ -174,6 +183,8 @@ def simple_call(draw, c):
             keyword_mode = True  # later ones must be keywords
             continue
         a = draw(typed_arg(t))
+        if has_d and isinstance(has_d, str) and draw(st.integers(0, 2)) == 0:
+            a = has_d  # explicitly pass a value equal to the parameter's default
         pairs.append((a, t))
         if kind == "ko" or keyword_mode or draw(st.integers(0, 3)) == 0:
             parts.append(f"{nm}={a}")
